@@ -24,8 +24,13 @@ TECHNIQUE = "runtime monitoring: strict RFC reference decoder + real decoder on 
 RULE = ("IMAP: every single code point U+0000..U+FFFF (quick) / ..U+10FFFF (thorough) except surrogates, "
         "embedded as 'a'+c+'&'+c; plus random strings (length 0..40) over an alphabet weighted to C0 "
         "controls, TAB/LF/CR, '&', '+', '-', ',', '/', '=', DEL, Latin-1, BMP and astral code points and "
-        "the surrogate-range neighbours.  xtext: all 1- and 2-byte strings, plus random byte strings "
-        "(length 0..40) weighted to '+', '=', SP, DEL, NUL, hex digits, 8-bit bytes.  Distinct = the "
+        "the surrogate-range neighbours; plus the run-length family: one uninterrupted run of L shifted "
+        "characters for every L in 1..200, in 6 character classes (C0, Latin-1, CJK, random BMP, astral, "
+        "BMP+astral), alone and embedded in ASCII / around '&' (base64 sections of every length up to 1067 "
+        "characters, crossing every 57-octet / 76-character line boundary), and random long runs in 8% of the "
+        "random cases.  xtext: all 1- and 2-byte strings, every length 1..300 and 500/1000/1999/2000 in 4 byte "
+        "classes, plus random byte strings (length 0..40, 4% of them 41..2000) weighted to '+', '=', SP, DEL, "
+        "NUL, hex digits, 8-bit bytes.  Distinct = the "
         "input itself; non-trivial = at least one character/byte that cannot represent itself.")
 ASSUMPTIONS = ["trusted base: vf/engines/refcodecs.py (RFC 3501 5.1.3 modified UTF-7, RFC 3461 xtext; "
                "self-tested against the RFC examples and exhaustively against itself)",
@@ -33,7 +38,8 @@ ASSUMPTIONS = ["trusted base: vf/engines/refcodecs.py (RFC 3501 5.1.3 modified U
 SHARDS = {"quick": 4, "thorough": 16}
 FLOORS = {"imap_strict_form_checks": 20000, "imap_roundtrips_compared": 20000,
           "xtext_strict_form_checks": 20000, "xtext_roundtrips_compared": 20000,
-          "imap_inputs_with_base64_run": 5000, "xtext_inputs_with_hexchar": 5000}
+          "imap_inputs_with_base64_run": 5000, "xtext_inputs_with_hexchar": 5000,
+          "imap_runs_of_29_or_more_shifted_chars": 3000, "xtext_inputs_over_100_bytes": 1000}
 READY = True
 
 _PRINTABLE = "".join(chr(c) for c in range(0x20, 0x7F))
@@ -71,8 +77,53 @@ def gen_text(rng):
     return "".join(out)
 
 
+RUN_CLASSES = ("c0", "latin1", "cjk", "bmp", "astral", "mixed")
+
+
+def shifted_char(rng, cls):
+    """One character that can only be represented inside a BASE64 section."""
+    if cls == "c0":
+        return chr(rng.choice((0, 1, 9, 10, 13, 0x1B, 0x1F, 0x7F)))
+    if cls == "latin1":
+        return chr(rng.randrange(0x80, 0x100))
+    if cls == "cjk":
+        return chr(rng.randrange(0x4E00, 0x9FFF))
+    if cls == "bmp":
+        return chr(_no_surrogate(rng.randrange(0x80, 0x10000)))
+    if cls == "astral":
+        return chr(rng.randrange(0x10000, 0x110000))
+    return shifted_char(rng, rng.choice(("c0", "latin1", "cjk", "bmp", "astral", "astral")))
+
+
+def gen_run(rng, cls, n):
+    return "".join(shifted_char(rng, cls) for _ in range(n))
+
+
+def gen_long_text(rng):
+    """Long shifted runs (1..200) with few or no interruptions."""
+    parts = []
+    for _ in range(rng.choice((1, 1, 1, 2, 3))):
+        n = rng.choice((18, 19, 28, 29, 30, 38, 56, 57, 58, 76, 95, 100, 114, 200, rng.randrange(1, 201), rng.randrange(1, 201)))
+        parts.append(gen_run(rng, rng.choice(RUN_CLASSES), n))
+        if rng.random() < 0.6:
+            parts.append(rng.choice(("a", "&", " ", "-", "+", "/x", "Mail/", "")))
+    if rng.random() < 0.3:
+        parts.insert(0, rng.choice(("INBOX/", "a", "&")))
+    return "".join(parts)
+
+
+def longest_shifted_run(s):
+    best = cur = 0
+    for c in s:
+        cur = cur + 1 if not 0x20 <= ord(c) <= 0x7E else 0
+        best = max(best, cur)
+    return best
+
+
 def gen_bytes(rng):
     n = rng.choice((0, 1, 2, 3, 3, 4, 5, 8, 13, 21, 40))
+    if rng.random() < 0.04:
+        n = rng.choice((41, 100, 255, 256, 1000, 1999, 2000, rng.randrange(41, 2001)))
     out = bytearray()
     for _ in range(n):
         r = rng.random()
@@ -168,6 +219,11 @@ def check_imap(ctx, imap4, s):
         ctx.distinct(("imap", s))
         if any(not 0x20 <= ord(c) <= 0x7E for c in s):
             ctx.count("imap_inputs_with_base64_run")
+            if len(s) >= 29:
+                run = longest_shifted_run(s)
+                ctx.maxi("imap_longest_shifted_run", run)
+                if run >= 29:
+                    ctx.count("imap_runs_of_29_or_more_shifted_chars")
     v = imap_verdict(imap4, s, ctx.count)
     if v is None:
         return True
@@ -189,6 +245,9 @@ def check_xtext(ctx, smtp, b):
     if any(not 33 <= c <= 126 or c in b"+=" for c in b):
         ctx.distinct(("xtext", b))
         ctx.count("xtext_inputs_with_hexchar")
+    if len(b) > 100:
+        ctx.count("xtext_inputs_over_100_bytes")
+        ctx.maxi("xtext_longest_input", len(b))
     v = xtext_verdict(smtp, b, ctx.count)
     if v is None:
         return True
@@ -220,6 +279,26 @@ def run(ctx):
         c = chr(cp)
         check_imap(ctx, imap4, "a" + c + "&" + c)
         ctx.count("imap_single_codepoints")
+    # -- run-length family: one uninterrupted shifted run of every length 1..200, per class and embedding
+    k = 0
+    for n in range(1, 201):
+        for cls in RUN_CLASSES:
+            k += 1
+            if not ctx.owns(k):
+                continue
+            rng = ctx.case_rng("run", n, cls)
+            run = gen_run(rng, cls, n)
+            for s in (run, "a" + run + "b", run + "&" + gen_run(rng, cls, n), "INBOX/" + run):
+                check_imap(ctx, imap4, s)
+                ctx.count("imap_run_length_family")
+    # -- xtext of every length 1..300 and a few long ones
+    for n in list(range(1, 301)) + [500, 1000, 1999, 2000]:
+        if not ctx.owns(n):
+            continue
+        rng = ctx.case_rng("xlen", n)
+        for alphabet in (b"+=", b" \x00\x7f\xff\r\n", b"+=abcDEF019", bytes(range(256))):
+            check_xtext(ctx, smtp, bytes(rng.choice(alphabet) for _ in range(n)))
+            ctx.count("xtext_length_family")
     # -- all 1- and 2-byte xtext inputs
     for hi in range(256):
         if not ctx.owns(hi):
@@ -230,7 +309,7 @@ def run(ctx):
     # -- random
     for i in ctx.cases(60000, 2400000):
         rng = ctx.case_rng(i)
-        s = gen_text(rng)
+        s = gen_long_text(rng) if i % 12 == 5 else gen_text(rng)
         ok = check_imap(ctx, imap4, s)
         if i % 16 == 0:  # the codec-registry path
             try:
